@@ -23,16 +23,17 @@ def main():
         c = os.path.join(work, 'c')
         tpl = open(os.path.join(c, 'harness.rs.in')).read()
         open(os.path.join(c, 'src', 'lib.rs'), 'w').write(tpl.replace('//@EXTRACTED', extracted).replace('@N@', str(n)).replace('@UNWIND@', str(n + 2)))
-        shutil.copy(os.path.join(REPO, 'Cargo.lock'), os.path.join(c, 'Cargo.lock'))
+        if os.path.exists(os.path.join(REPO, 'Cargo.lock')):   # pin the dependency versions of the repository when it records them
+            shutil.copy(os.path.join(REPO, 'Cargo.lock'), os.path.join(c, 'Cargo.lock'))
         env = dict(os.environ, CARGO_NET_OFFLINE='true', CARGO_TARGET_DIR=os.path.join(work, 'target'))
         t0 = time.time()
-        p = subprocess.run(['cargo', 'kani', '--harness', 'target_type_bounded', '--harness', 'target_type_examples',
+        p = subprocess.run(['cargo', 'kani', '--harness', 'target_type_bounded', '--harness', 'target_type_examples', '--harness', 'flags_model_faithful',
                             '-Z', 'concrete-playback', '--concrete-playback=print'], cwd=c, env=env,
                            capture_output=True, text=True, timeout=int(os.environ.get('VERIF_KANI_TIMEOUT', '1500')))
         out = p.stdout + p.stderr
-        ok = out.count('VERIFICATION:- SUCCESSFUL') >= 2 and 'VERIFICATION:- FAILED' not in out
+        ok = out.count('VERIFICATION:- SUCCESSFUL') >= 3 and 'VERIFICATION:- FAILED' not in out
         failed = 'VERIFICATION:- FAILED' in out
-        res = {'bound': 'every ASCII target of at most %d bytes' % n, 'harnesses': ['target_type_bounded', 'target_type_examples'],
+        res = {'bound': 'every ASCII target of at most %d bytes' % n, 'harnesses': ['target_type_bounded', 'target_type_examples', 'flags_model_faithful'],
                'ok': ok, 'failed': failed, 'wall_s': round(time.time() - t0, 1), 'tail': out[-1500:],
                'failed_checks': re.findall(r'Failed Checks: (.*)', out)[:5]}
         if failed:
